@@ -281,8 +281,8 @@ PROPS = {
                      {'name': 'proofopsexh', 'shards': {'quick': 12, 'thorough': 16}}],
         'kinds': ['addproof*', 'subset*', 'missing*', 'mapmissing*', 'mapnodes'],
         'dist_kinds': ['dist:addproof', 'dist:subset', 'dist:missing', 'dist:mapmissing'],
-        'lean_modules': ['UtreexoVerif.Props.C14', 'UtreexoVerif.Props.C14b', 'UtreexoVerif.Props.C14c', 'UtreexoVerif.Props.C14d'],
-        'theorems': ['UtreexoVerif.Props.C14.' + t for t in ['C14_addProof', 'C14_missing_positions', 'C14_missing', 'getProofSubset_refines', 'C14_subset', 'C14_missing_statement_false', 'C14_subset_statement_false']] + ['UtreexoVerif.Proofs.LeafPositions.leaf_positions_PPHyp', 'UtreexoVerif.Proofs.LeafPositions.leaf_anti'] + ['UtreexoVerif.Props.C14.' + t for t in ['addProof_closed_form', 'addProof_total', 'addProof_outputs', 'addProof_proof_identity',
+        'lean_modules': ['UtreexoVerif.Props.C14', 'UtreexoVerif.Props.C14b', 'UtreexoVerif.Props.C14c', 'UtreexoVerif.Props.C14d', 'UtreexoVerif.Props.C14Map'],
+        'theorems': ['UtreexoVerif.Props.C14Map.' + t for t in ['map_getMissingPositions_exact', 'map_getMissingPositions_mem', 'map_getMissingPositions_mem_getHash', 'map_getMissingPositions_positions', 'map_getMissingPositions_nil_iff', 'map_getMissingPositions_cached', 'map_getMissingPositions_nil_iff_self', 'map_getMissingPositions_full', 'map_verifyPartialProof_eq_verify', 'map_verifyPartialProof_complete', 'map_verifyPartialProof_complete_full', 'map_verifyPartialProof_short', 'map_verifyPartialProof_dropped', 'map_verifyPartialProof_never_panics', 'map_verifyPartialProof_accepts_only_true', 'map_verifyPartialProof_wrong_hash_rejected', 'Example.missing_reports_computable', 'Example.nil_but_not_cached', 'Example.missing21']] + ['UtreexoVerif.Proofs.VerifyUnique.verify_proof_unique'] + ['UtreexoVerif.Props.C14.' + t for t in ['C14_addProof', 'C14_missing_positions', 'C14_missing', 'getProofSubset_refines', 'C14_subset', 'C14_missing_statement_false', 'C14_subset_statement_false']] + ['UtreexoVerif.Proofs.LeafPositions.leaf_positions_PPHyp', 'UtreexoVerif.Proofs.LeafPositions.leaf_anti'] + ['UtreexoVerif.Props.C14.' + t for t in ['addProof_closed_form', 'addProof_total', 'addProof_outputs', 'addProof_proof_identity',
                      'mem_extraTargets', 'getMissingPositions_spec', 'getProofSubset_ok', 'getProofSubset_err_of_uncovered',
                      'coverage_check_passes', 'getProofSubset_total', 'addProof_panics_on_short_proof',
                      'addProof_silent_on_short_proof', 'getMissingPositions_refines', 'addProof_refines',
